@@ -291,3 +291,33 @@ def peek_copy(ctx: Ctx) -> None:
                 m = match("''.join($x)", inline(kw["string"], fi))
                 okp = m is not None and isinstance(m["x"], ast.Name) and any(b.kind.startswith("unpack") or b.kind == "assign" for b in locals_of(fi).b.get(m["x"].id, []))
                 ctx.expect("R-REWIND", fi, "the peek parses the complete text of the other copy", okp, src(kw["string"]), f"string={src(kw['string'])}", node=c)
+
+
+def filename_entry(ctx: Ctx) -> None:
+    """C03 (file name decides the format): the by-name loaders hand the *opened file object* - which carries the name - to load(), with the
+    caller's strict flag, on every returning path; open() returns that result."""
+    from .tables import closed, sums_of as tsums
+    p = ctx.p
+    fi = p.func("simfile:open_with_detected_encoding")
+    n = 0
+    for s_ in tsums(ctx, fi):
+        if s_.end != "return":
+            continue
+        n += 1
+        k_, v_ = s_.terminal()
+        withs = {e.value.id: e.target for e in s_.effects if e.kind == "with" and isinstance(e.value, ast.Name)}
+        first = v_.elts[0] if isinstance(v_, ast.Tuple) and v_.elts else v_
+        first = closed(s_, first, opq=frozenset(withs)) if first is not None else None
+        good = False
+        detail = ast.unparse(first) if first is not None else "None"
+        if isinstance(first, ast.Call) and callee_name(ctx, fi, first) == LOAD and first.args and isinstance(first.args[0], ast.Name) and first.args[0].id in withs and not any(k.arg is None for k in first.keywords):
+            opened = withs[first.args[0].id]
+            from ..flow import call_args as _ca
+            am = _ca(first, p.func(LOAD))
+            good = (isinstance(opened, ast.Call) and isinstance(opened.func, ast.Attribute) and opened.func.attr == "open" and opened.args and ast.unparse(opened.args[0]) == "filename"
+                    and am.get("strict") is not None and ast.unparse(am["strict"]) == "strict")
+            detail += f" with {first.args[0].id} = {ast.unparse(opened)}"
+        ctx.expect("R-FWD", fi, "the by-name loader returns load(<the file object it opened under the caller's filename>, strict=strict)", good, detail,
+                   f"the result is {detail}: the format of a file opened by name is decided by its name (.sm / .ssc), which only the opened file object carries - "
+                   "loading its text (or another object) falls back to sniffing the first parameter", node=fi.node)
+    ctx.floor("returning paths of open_with_detected_encoding", n, 1)
